@@ -138,6 +138,50 @@ def oracle_spacing(case):
     return out
 
 
+# ------------------------------------------------------------------------------------------------------------
+# a repeat is reported (or not) whatever stands beside and between the two copies
+def repeat_strategy(versions):
+    @st.composite
+    def strat(draw):
+        v = draw(st.sampled_from(versions))
+        pl = gen_hed.pool(v)
+        m = pl.m
+        node = pl.extendable[draw(st.integers(0, len(pl.extendable) - 1))]
+        ext = gen_hed.fresh_ext(draw, pl)
+        second = draw(st.sampled_from([ext, ext.swapcase(), ext.upper(), ext.lower()]))
+        group = draw(st.booleans())       # the copies are tags, or one-level groups holding the tag and a fixed tag
+        other = pl.plain[draw(st.integers(0, len(pl.plain) - 1))]
+
+        def item(e):
+            t = f"{gen_hed.spelled(draw, node, m)}/{e}"
+            return f"({t}, {other.short})" if group else t
+        pair = [item(ext), item(second)]
+        # bystanders: same node, extensions that sort before / between / after the copies in every collation
+        stems = [ext[0].upper() + "zz" + ext[1:], ext[0].lower() + "aa" + ext[1:], "Aq" + ext[2:] + "b", "z" + ext]
+        by = []
+        for stem in draw(st.lists(st.sampled_from(stems), min_size=1, max_size=4, unique=True)):
+            t = f"{node.short}/{stem}"
+            by.append(f"({t}, {other.short})" if group else t)
+        crowd = list(draw(st.permutations(pair + by)))
+        return {"version": v, "pair": ", ".join(draw(st.permutations(pair))), "crowd": ", ".join(crowd),
+                "same_case": second == ext, "group": group}
+    return strat()
+
+
+def oracle_repeat(case):
+    out = Outcome(nontrivial=True, classes=("copies:" + ("groups" if case["group"] else "tags"),
+                                            "case:" + ("same" if case["same_case"] else "variant")))
+    c = {"version": case["version"], "defs": [], "allow_placeholders": False}
+    alone = codes(c, case["pair"]).get("TAG_EXPRESSION_REPEATED", 0)
+    crowded = codes(c, case["crowd"]).get("TAG_EXPRESSION_REPEATED", 0)
+    if bool(alone) != bool(crowded):
+        out.bad("repeat-report-depends-on-bystanders:" + ("same-case" if case["same_case"] else "case-variant"),
+                f"{case['version']}: {case['pair']!r} -> {alone}; {case['crowd']!r} -> {crowded}")
+    if case["same_case"] and not alone:
+        out.bad("exact-repeat-not-reported", f"{case['version']}: {case['pair']!r}")
+    return out
+
+
 def warmup(tier):
     for v in (QUICK if tier == "quick" else ALL):
         hedenv.schema(v)
@@ -148,4 +192,6 @@ def parts(tier):
     versions = QUICK if tier == "quick" else ALL
     return [Part("rewrite", oracle, strategy=strategy(versions), n=4000 if tier == "quick" else 96000),
             Part("spacing-of-delimiter-faults", oracle_spacing, strategy=spacing_strategy(versions),
-                 n=800 if tier == "quick" else 24000)]
+                 n=800 if tier == "quick" else 24000),
+            Part("repeat-among-bystanders", oracle_repeat, strategy=repeat_strategy(versions),
+                 n=600 if tier == "quick" else 24000)]
